@@ -161,6 +161,31 @@ impl Hist {
                 self.open()?;
                 Ok("ok".into())
             }
+            // inits3 <endpoint hex> <bucket> <prefix hex|-> <ext name|none> <cfg json hex|-> <spec>
+            // opens3 <endpoint hex> <bucket> <prefix hex|->
+            #[cfg(feature = "s3")]
+            "inits3" | "opens3" => {
+                use rusoto_core::Region;
+                let region = Region::Custom { name: "us-east-1".to_string(), endpoint: unhex(a[0]) };
+                let prefix = if a[2] == "-" { None } else { Some(unhex(a[2])) };
+                self.repo = None;
+                fs::create_dir_all(self.staging())?;
+                if op == "inits3" {
+                    let layout = if a[3] == "none" {
+                        None
+                    } else {
+                        let name = LayoutExtensionName::from_str(a[3])
+                            .map_err(|_| RocflError::General("bad layout".into()))?;
+                        let cfg = unhex(a[4]);
+                        let bytes = if a[4] == "-" { None } else { Some(cfg.as_bytes()) };
+                        Some(StorageLayout::new(name, bytes)?)
+                    };
+                    self.repo = Some(OcflRepo::init_s3_repo(region, a[1], prefix.as_deref(), None, self.staging(), spec(a[5]).unwrap(), layout)?);
+                } else {
+                    self.repo = Some(OcflRepo::s3_repo(region, a[1], prefix.as_deref(), self.staging(), None)?);
+                }
+                Ok("ok".into())
+            }
             // client <k>: a second rocfl user with its own (external) staging root on the same storage root
             "client" => {
                 self.client = a[0].parse().unwrap();
